@@ -294,6 +294,41 @@ func rootedName(obl string) string {
 	return obl[:at+1] + root + site
 }
 
+// entryOfLoopFails: some invariant of the loop named by the cover point ("loopinv@<fn>#<k>") is not established on
+// entry (obligation "<label>.entry@<fn>->loop<k>" of the same unit fails), whatever property it belongs to.
+func entryOfLoopFails(rd *runData, u *Unit, cover, work, tier string, seed int) bool {
+	rest := strings.TrimPrefix(cover, "loopinv@")
+	i := strings.LastIndex(rest, "#")
+	if i < 0 {
+		return false
+	}
+	fn, k := rest[:i], rest[i+1:]
+	var sel []*Obligation
+	for _, ob := range rd.obls {
+		if ob.Unit == u && strings.Contains(ob.Name, ".entry@"+fn+"->loop"+k) {
+			sel = append(sel, ob)
+		}
+	}
+	if len(sel) == 0 {
+		return false
+	}
+	var todo []*Obligation
+	for _, ob := range sel {
+		if ob.Kind != "structural" && ob.Result == nil {
+			todo = append(todo, ob)
+		}
+	}
+	if len(todo) > 0 {
+		solveAll(todo, filepath.Join(work, "entry"), tier, seed)
+	}
+	for _, ob := range sel {
+		if failed(ob) {
+			return true
+		}
+	}
+	return false
+}
+
 // ---------------------------------------------------------------- check
 
 func cmdCheck(repo, prop, tier string) int {
@@ -350,6 +385,10 @@ func cmdCheck(repo, prop, tier string) int {
 				v, _, _ = runSolver(solvers[1], file, 10, seed)
 			}
 			if v == "sat" || v == "unknown" || v == "timeout" {
+				coversReached++
+			} else if strings.HasPrefix(cp.Name, "loopinv@") && entryOfLoopFails(rd, u, cp.Name, work, tier, seed) {
+				// the invariant is assumed after its establishment was asserted: when that assertion fails (it is
+				// reported as a violation under its own property) the assumption is unsatisfiable by construction
 				coversReached++
 			} else {
 				vacuous = append(vacuous, cp.Name+"@"+u.rootKey+" ("+v+")")
